@@ -459,6 +459,14 @@ func TestVerifC31SegmentsByInstant(t *testing.T) {
 
 		// first instant
 		sec := rapid.Int64Range(1262304000, 2524608000).Draw(t, "sec") // 2010..2050
+		if zoneKind == "named" && rapid.Bool().Draw(t, "nearClockChange") {
+			// within three hours of a clock change of the server's zone (round-3 seeded change C31-s3: the name
+			// decoder was wrong by one hour just before DST changes only)
+			year := rapid.IntRange(2010, 2049).Draw(t, "year")
+			if tr := c31ClockChange(cs.local, year, rapid.Bool().Draw(t, "secondHalf")); tr != 0 {
+				sec = tr + rapid.Int64Range(-3*3600, 3*3600).Draw(t, "aroundChange")
+			}
+		}
 		us := int64(0)
 		if f.hasF {
 			us = rapid.OneOf(rapid.Int64Range(0, 999999), rapid.SampledFrom([]int64{0, 1, 999999, 500000})).Draw(t, "us")
@@ -614,4 +622,26 @@ func TestVerifC31RegressDeleteServerOffset(t *testing.T) {
 	if req, err := c31Run(c31Start(t), cs, false); err != nil {
 		t.Errorf("VIOLATION (request %s): %v", req, err)
 	}
+}
+
+// c31ClockChange returns the unix second of the UTC-offset change of loc in the given half of the year (0 if none).
+func c31ClockChange(loc *time.Location, year int, secondHalf bool) int64 {
+	lo := time.Date(year, 1, 1, 0, 0, 0, 0, time.UTC).Unix()
+	hi := time.Date(year, 7, 1, 0, 0, 0, 0, time.UTC).Unix()
+	if secondHalf {
+		lo, hi = hi, time.Date(year+1, 1, 1, 0, 0, 0, 0, time.UTC).Unix()
+	}
+	off := func(s int64) int { _, o := time.Unix(s, 0).In(loc).Zone(); return o }
+	if off(lo) == off(hi) {
+		return 0
+	}
+	for hi-lo > 1 {
+		mid := lo + (hi-lo)/2
+		if off(mid) == off(lo) {
+			lo = mid
+		} else {
+			hi = mid
+		}
+	}
+	return hi
 }
